@@ -425,10 +425,10 @@ def main(argv=None):
             path = os.path.join(VERIF, 'replays', pid, h + '.json')
             with open(path, 'w') as f:
                 json.dump(body, f, indent=1)
-            if len(viol_lines) < 25:
+            if len(viol_lines) < int(os.environ.get('VERIF_MAX_VIOL_LINES', '25')):
                 viol_lines.append('VIOLATION property=%s replay=%s' % (pid, path))
                 print('  violated: group=%s obligation=%s %s env=%s' % (r['group'], v['label'], v.get('detail'), json.dumps(v['env'])[:400]))
-    if len(seen_v) > 25:
+    if len(seen_v) > int(os.environ.get('VERIF_MAX_VIOL_LINES', '25')):
         print('  ... and %d more violated (group, obligation) pairs' % (len(seen_v) - 25))
     for _, line in known_lines:
         print(line)
